@@ -61,6 +61,28 @@ theorem atou_eq {b : Buf} {p : Nat} {a : Bytes} (h : CAt b p a) : AtoU b p = .ok
 theorem atoi_eq {b : Buf} {p : Nat} {a : Bytes} (h : CAt b p a) (hfit : TextExt.atoiMagnitude a ≤ 2147483647) :
     AtoI b p = .ok (TextExt.atoi a) := AtoI_ok h hfit
 
+/-- **AtoI, general form** (no enumeration): for EVERY C string of the shape
+    `blanks ++ sign ++ digits ++ rest` — any number of blanks (0x20, 9…13), at most one sign, any
+    number of decimal digits, a rest that does not start with a digit — whose digit value fits
+    `int`, `AtoI` returns that value with the sign.  `digitsVal` is the positional value
+    (`digitsVal_horner`). -/
+theorem atoi_parts_eq {b : Buf} {p : Nat} (blanks sign digits rest : Bytes)
+    (h : CAt b p (blanks ++ sign ++ digits ++ rest))
+    (hb : ∀ c ∈ blanks, TextExt.isBlank c = true) (hs : sign = [] ∨ sign = [43] ∨ sign = [45])
+    (hd : ∀ c ∈ digits, TextExt.isDigit c = true)
+    (hr : ∀ c, rest.head? = some c → TextExt.isDigit c = false)
+    (hfirst : sign = [] → ∀ c, (digits ++ rest).head? = some c → TextExt.isBlank c = false ∧ c ≠ 43 ∧ c ≠ 45)
+    (hfit : TextExt.digitsVal 0 digits ≤ 2147483647) :
+    AtoI b p = .ok (if sign = [45] then - (TextExt.digitsVal 0 digits : Int) else (TextExt.digitsVal 0 digits : Int)) :=
+  AtoI_parts blanks sign digits rest h hb hs hd hr hfirst hfit
+
+theorem digitsVal_horner (acc : Nat) (ds : Bytes) (d : UInt8) :
+    TextExt.digitsVal acc (ds ++ [d]) = TextExt.digitsVal acc ds * 10 + (d.toNat - 48) := digitsVal_append acc ds d
+
+/-- a successful `StrLen` means there IS a terminated string there (inversion) -/
+theorem strlen_ok_only_on_strings {b : Buf} {p n : Nat} (h : StrLen b p = .ok n) : ∃ a, CAt b p a ∧ a.length = n :=
+  StrLen_inv h
+
 theorem tolower_eq (c : UInt8) : ToLower c = Text.lowerByte c := ToLower_eq_lowerByte c
 
 /-! ## constructors, assignment, concatenation -/
@@ -153,6 +175,11 @@ theorem replaceChar_eq {self : Obj} {a : Bytes} (h : Holds self a) (to w : UInt8
     ∃ r, replaceChar self to w = .ok r ∧ Holds r (Text.replaceByte a to w) ∧ r.id = self.id ∧ r.size = self.size ∧
       r.buf.length = self.buf.length := replaceChar_holds h to w hw
 
+/-- `replace(char, char)` for ANY replacement byte: a NUL replacement cuts the string there -/
+theorem replaceChar_any_eq {self : Obj} {a : Bytes} (h : Holds self a) (to w : UInt8) :
+    ∃ r, replaceChar self to w = .ok r ∧ Holds r (cut (Text.replaceByte a to w)) ∧ r.id = self.id ∧
+      r.size = self.size ∧ r.buf.length = self.buf.length := replaceChar_any h to w
+
 /-- `replace(to, with)` = leftmost, non-overlapping replace-all (an empty pattern changes nothing);
     the old buffer is released under its recorded size iff a new one was requested -/
 theorem replaceAll_eq {self : Obj} {a pat rep : Bytes} {to wb : Buf} {tp wp : Nat}
@@ -197,6 +224,44 @@ theorem printable_eq {self : Obj} {a : Bytes} (h : Holds self a) (w : World) (vs
 theorem printable_size_eq {self : Obj} {a : Bytes} (h : Holds self a) :
     getPrintableSize self = .ok (TextExt.printable a).length := getPrintableSize_ok h
 
+/-! ## SimpleStringCollection -/
+
+/-- `allocate(n)`: the old elements are destroyed (their buffers released), `size()` is `n`, every
+    element is the empty string, `empty_` is untouched -/
+theorem collection_allocate (col : Coll) (n : Nat) (w : World) :
+    ∃ items w', collAllocate col n w = .ok (⟨items, col.empty⟩, w') ∧ items.length = n ∧
+      (∀ o ∈ items, Holds o [] ∧ Sized o) ∧
+      ∀ L, Owns w (ownedObjs col.items ++ L) → Owns w' (ownedObjs items ++ L) := collAllocate_ok col n w
+
+theorem collection_get_in_range {col : Coll} {i : Nat} {o : Obj} (h : col.items[i]? = some o) (w : World) :
+    collGet col i w = .ok ((col, o), w) := collGet_in_range h w
+
+/-- an index past the end reads as the empty string (whatever was stored through such an index) -/
+theorem collection_get_out_of_range {col : Coll} {i : Nat} (h : col.items[i]? = none) (w : World) :
+    collGet col i w =
+      .ok ((⟨col.items, mkObj (w.next + 1) []⟩, mkObj (w.next + 1) []),
+           (((w.alloc 1).free col.empty.id col.empty.size).alloc 1).free w.next 1) := collGet_out_of_range h w
+
+theorem collection_assign_in_range {col : Coll} {i : Nat} {o value : Obj} {v : Bytes} (h : col.items[i]? = some o)
+    (hv : Holds value v) (w : World) :
+    collAssign col i value w =
+      .ok (⟨col.items.set i (mkObj w.next v), col.empty⟩, (w.free o.id o.size).alloc (v.length + 1)) :=
+  collAssign_in_range h hv w
+
+/-- a store through an index past the end leaves every element as it is -/
+theorem collection_assign_out_of_range {col : Coll} {i : Nat} {value : Obj} {v : Bytes} (h : col.items[i]? = none)
+    (hv : Holds value v) (w : World) :
+    collAssign col i value w =
+      .ok (⟨col.items, mkObj (w.next + 2) v⟩,
+           (((((w.alloc 1).free col.empty.id col.empty.size).alloc 1).free w.next 1).free (w.next + 1) 1).alloc
+             (v.length + 1)) := collAssign_out_of_range h hv w
+
+/-- any sequence of collection actions keeps the collection well-formed and its buffers paired -/
+theorem collection_actions_pair {st : Store} {w0 : World} (hg : Good st w0) (acts : List CollAct) (col : Coll)
+    (w : World) (col' : Coll) (w' : World) (hc : CollGood col) (h : runColl st acts col w = .ok (col', w')) :
+    CollGood col' ∧ ∀ L, Owns w (collOwned col ++ L) → Owns w' (collOwned col' ++ L) :=
+  runColl_pc hg acts col w col' w' hc h
+
 /-! ## formatted construction: the glue around `vsnprintf` (whose results are inputs) -/
 
 /-- a formatted length below 100: the stack buffer is used, no buffer is requested for the text -/
@@ -240,6 +305,59 @@ theorem maskedBits_eq (v m k : Nat) (w : World) :
     Creates (stringFromMaskedBits v m k) w (fun r => Holds r (TextExt.maskedBits v m k)) :=
   stringFromMaskedBits_creates v m k w
 
+/-- formatted construction pairs its buffers whatever `vsnprintf` answers (fast path, slow path,
+    texts with embedded NULs, wrong lengths — a contract violation makes the model fail instead) -/
+theorem format_pairs_always : PC vStringFromFormat ∧ PC stringFromFormat :=
+  ⟨pc_vStringFromFormat, pc_stringFromFormat⟩
+
+/-- `HexStringFrom(signed char)`: non-negative → what `printf("%x")` printed; negative → its last
+    two characters (the two-digit cut) -/
+theorem hexStringFromSignedChar_eq {w : World} {r : VsnRes} {rest : List VsnRes} (neg : Bool)
+    (hv : w.vsn = r :: rest) (hret : r.ret < sizeOfdefaultBuffer) (hlen : r.text.length < sizeOfdefaultBuffer)
+    (hnf : NulFree r.text) (h2 : 2 ≤ r.text.length) :
+    Creates (hexStringFromSignedChar neg) w
+      (fun o => Holds o (if neg then r.text.drop (r.text.length - 2) else r.text)) :=
+  hexStringFromSignedChar_creates neg hv hret hlen hnf h2
+
+/-- `BracketsFormattedHexString(h)` = `"(0x" ++ h ++ ")"` (no environment involved) -/
+theorem brackets_eq {hexString : Obj} {a : Bytes} (h : Holds hexString a) (w : World) :
+    Creates (bracketsFormattedHexString hexString) w (fun r => Holds r ([40, 48, 120] ++ a ++ [41])) :=
+  bracketsFormattedHexString_creates h w
+
+/-- `BracketsFormattedHexStringFrom(v)` = `"(0x" ++ <what printf printed> ++ ")"` -/
+theorem bracketsFromFormat_eq {w : World} {r : VsnRes} {rest : List VsnRes}
+    (hv : w.vsn = r :: rest) (hret : r.ret < sizeOfdefaultBuffer) (hlen : r.text.length < sizeOfdefaultBuffer)
+    (hnf : NulFree r.text) :
+    Creates (do let h ← stringFromFormat; let o ← bracketsFormattedHexString h; dtor h; pure o) w
+      (fun o => Holds o ([40, 48, 120] ++ r.text ++ [41])) := bracketsFromFormat_creates hv hret hlen hnf
+
+/-- `StringFrom(const void*)` / `StringFrom(void (*)())` = `"0x" ++ <what printf printed>` -/
+theorem stringFromPointer_eq {w : World} {r : VsnRes} {rest : List VsnRes}
+    (hv : w.vsn = r :: rest) (hret : r.ret < sizeOfdefaultBuffer) (hlen : r.text.length < sizeOfdefaultBuffer)
+    (hnf : NulFree r.text) :
+    Creates stringFromPointer w (fun o => Holds o ([48, 120] ++ r.text)) := stringFromPointer_creates hv hret hlen hnf
+
+/-- `StringFrom(bool)` is exactly what `printf("%s", "true"/"false")` printed -/
+theorem stringFromBool_eq {w : World} {r : VsnRes} {rest : List VsnRes} (b : Bool)
+    (hv : w.vsn = r :: rest) (hret : r.ret < sizeOfdefaultBuffer)
+    (htext : r.text = if b then [116, 114, 117, 101] else [102, 97, 108, 115, 101]) :
+    Creates stringFromFormat w (fun o => Holds o (if b then [116, 114, 117, 101] else [102, 97, 108, 115, 101])) :=
+  stringFromBool_creates b hv hret htext
+
+/-- `StringFromBinaryWithSize`: the header libc printed, the first `min n 128` bytes as hex pairs,
+    `" ..."` exactly when `n > 128` -/
+theorem binaryWithSize_eq (x : Bytes) (w : World) (hdr : VsnRes) (vs rest : List VsnRes)
+    (hv : w.vsn = hdr :: (vs ++ rest)) (hret : hdr.ret < sizeOfdefaultBuffer)
+    (hlen : hdr.text.length < sizeOfdefaultBuffer) (hnf : NulFree hdr.text) (henv : BinEnv (x.take 128) vs) :
+    Creates (stringFromBinaryWithSize false x.length) w
+      (fun o => Holds o (hdr.text ++ TextExt.binary (x.take 128) ++ (if x.length > 128 then [32, 46, 46, 46] else []))) :=
+  stringFromBinaryWithSize_creates x w hdr vs rest hv hret hlen hnf henv
+
+/-- … which is `TextExt.binaryWithSize x` when the header is `"Size = <n> | HexContents = "` -/
+theorem binaryWithSize_textbook (x : Bytes) {hdr : VsnRes} (h : hdr.text = TextExt.sizeHeader x.length) :
+    hdr.text ++ TextExt.binary (x.take 128) ++ (if x.length > 128 then [32, 46, 46, 46] else []) =
+      TextExt.binaryWithSize x := stringFromBinaryWithSize_textbook x h
+
 /-- the suffix `StringFromOrdinalNumber` hands to `printf` (over the regenerated rule constants) -/
 theorem ordinal_suffix_eq (n : Nat) : SStr.ordinalSuffix n = TextExt.ordinalSuffix n := ordinalSuffix_eq n
 
@@ -250,29 +368,24 @@ theorem ordinal_suffix_eq (n : Nat) : SStr.ordinalSuffix n = TextExt.ordinalSuff
 theorem replay_append (l1 l2 : List Ev) (L : List (Nat × Nat)) :
     liveAfter (l1 ++ l2) L = (liveAfter l1 L).bind (liveAfter l2) := liveAfter_append l1 l2 L
 
-/-- one object-level operation keeps the invariant `Good`: each live object owns exactly one
-    outstanding buffer under its recorded size (= the buffer's size = the size it was requested
-    with); every temporary buffer of the operation was released exactly once with its size -/
-theorem step_keeps_pairing_partial {st st' : Store} {w w' : World} {op : Op} (hg : Good st w) (hwf : op.wf)
-    (henv : EnvOk st w op) (hs : step st op w = .ok (st', w')) (hfit : Fits st') : Good st' w' :=
-  step_good hg hwf henv hs hfit
+/-- **FULL STRENGTH.** One operation of the scripts — ANY operation: object-level operations,
+    `replace(c, '\0')`, the whole formatted-construction family (`Op.fmt`: StringFromFormat /
+    VStringFromFormat fast and slow path, StringFrom(…), HexStringFrom, BracketsFormatted…,
+    StringFromBinary(+WithSize, OrNull), StringFromMaskedBits, StringFromOrdinalNumber, pointer forms),
+    `printable`, `split` — keeps the invariant `Good`, whatever `vsnprintf` answered (an answer
+    that breaks the libc contract makes the model fail, never mis-pair): each live object owns
+    exactly one outstanding buffer under its recorded size (= the buffer's size = the size it was
+    requested with); every temporary buffer of the operation was released exactly once with its
+    size.  No hypothesis on operands or environment besides success and `size_t` range. -/
+theorem step_keeps_pairing_full {st st' : Store} {w w' : World} {op : Op} (hg : Good st w)
+    (hs : step st op w = .ok (st', w')) (hfit : Fits st') : Good st' w' := step_good hg hs hfit
 
-/-- FULL-STRENGTH statement, NOT proved: the same for EVERY operation of the scripts, i.e. also the
-    formatted-construction family (`Op.fmt`: StringFrom/HexStringFrom/BracketsFormatted…/
-    StringFromBinaryWithSize…) and `replace(char, '\0')`, without the hypotheses `op.wf` / `EnvOk`.
-    What is proved for that family: the glue lemmas above (`format_fast_path`, `format_slow_path`,
-    `stringFromFormat_fast_path`, `binary_eq`, `maskedBits_eq`, `ordinal_suffix_eq`), each with its
-    exact or `Owns`-level allocator accounting; what is only observed: the event-exact
-    correspondence and the pairing oracle of every run (harness `h_c13`). -/
-def step_keeps_pairing_full : Prop :=
-  ∀ (st st' : Store) (w w' : World) (op : Op), Good st w → step st op w = .ok (st', w') → Fits st' → Good st' w'
-
-/-- every successful script of object-level operations, of any length, from the empty state -/
-theorem script_keeps_pairing_partial {ops : List Op} {st' : Store} {w' : World} (hr : Run [] {} ops st' w') :
+/-- every successful script, of any length and of any operations, from the empty state -/
+theorem script_keeps_pairing {ops : List Op} {st' : Store} {w' : World} (hr : Run [] {} ops st' w') :
     Good st' w' := run_good hr Good.init
 
 /-- … hence its log replays without a mismatch and the outstanding buffers are the live objects' -/
-theorem each_buffer_released_once_same_size_partial {ops : List Op} {st' : Store} {w' : World} (hr : Run [] {} ops st' w') :
+theorem each_buffer_released_once_same_size {ops : List Op} {st' : Store} {w' : World} (hr : Run [] {} ops st' w') :
     ∃ L, liveAfter w'.log [] = some L ∧ L.Perm (owned st') := by
   obtain ⟨L0, h1, h2, _⟩ := (run_good hr Good.init).owns
   exact ⟨L0, h1, h2⟩
@@ -285,7 +398,7 @@ theorem script_then_delall_releases_everything {ops : List Op} {st' : Store} {w'
     intro st w ops st1 w1 h
     induction h with
     | nil => intro h; exact absurd rfl h
-    | @cons st w op ops st1 w1 st2 w2 vs hwf henv hs hfit hrest ih =>
+    | @cons st w op ops st1 w1 st2 w2 vs hs hfit hrest ih =>
       intro _ hl
       cases ops with
       | nil =>
@@ -317,6 +430,16 @@ example : TextExt.split [97, 45, 45, 98] [45, 45] = [[97, 45, 45], [98]] := by d
 example : TextExt.split [] [45] = [[]] ∧ TextExt.split [] [] = [] ∧ TextExt.split [97, 98] [] = [[97], [98]] := by decide
 example : TextExt.printable [128, 10, 65] = [92, 120, 56, 48, 92, 110, 65] := by decide
 example : HexEnv [128, 10, 65] [⟨5, [92, 120, 56, 48, 32]⟩] := ⟨by decide, by decide⟩
+/-- " -12x": two blanks, a sign, two digits, a rest -/
+example : TextExt.atoi ([32, 9] ++ [45] ++ [49, 50] ++ [120]) = -12 := by decide
+example : TextExt.digitsVal 0 [49, 50] = 12 := by decide
+/-- the collection read past its end, on the model: `empty_` comes back as "" -/
+example : ∃ e w', collGet ⟨[], mkObj 7 [97]⟩ 3 {} = .ok ((⟨[], e⟩, e), w') ∧ Holds e [] :=
+  ⟨_, _, collGet_out_of_range (by rfl) {}, holds_mkObj (by decide)⟩
+example : CollGood ⟨[mkObj 1 [97]], mkObj 2 []⟩ :=
+  ⟨by intro o ho; simp at ho; subst ho; exact ⟨hasStr_mk _ (by decide), sized_mkObj _ _⟩,
+   hasStr_mk _ (by decide), sized_mkObj _ _⟩
+example : TextExt.binaryWithSize [0, 255] = TextExt.sizeHeader 2 ++ [48, 48, 32, 70, 70] := by decide
 
 /-- a concrete script: `a = "ab"; b = a + a; b.replace("ba", "x"); delete a; delete b` -/
 def exOps : List Op :=
@@ -344,17 +467,16 @@ theorem exFits (n : Nat) (h : n ≤ 5) : Fits (exState n).1 := by
   | 0, _ | 1, _ | 2, _ | 3, _ | 4, _ | 5, _ => decide
 
 theorem exRun : Run [] {} exOps (exState 5).1 (exState 5).2 :=
-  Run.cons [] (show Op.wf (.new "a" [97, 98, 0]) from ⟨[97, 98], by decide, [], rfl⟩) trivial exStep1 (exFits 1 (by decide))
-    (Run.cons [] (show Op.wf (.plus "b" "a" "a") from trivial) trivial exStep2 (exFits 2 (by decide))
-      (Run.cons [] (show Op.wf (.repl "b" [98, 97, 0] [120, 0]) from ⟨⟨[98, 97], by decide, [], rfl⟩, ⟨[120], by decide, [], rfl⟩⟩)
-        trivial exStep3 (exFits 3 (by decide))
-        (Run.cons [] (show Op.wf (.del "a") from trivial) trivial exStep4 (exFits 4 (by decide))
-          (Run.cons [] (show Op.wf (.del "b") from trivial) trivial exStep5 (exFits 5 (by decide)) (Run.nil _ _)))))
+  Run.cons [] exStep1 (exFits 1 (by decide))
+    (Run.cons [] exStep2 (exFits 2 (by decide))
+      (Run.cons [] exStep3 (exFits 3 (by decide))
+        (Run.cons [] exStep4 (exFits 4 (by decide))
+          (Run.cons [] exStep5 (exFits 5 (by decide)) (Run.nil _ _)))))
 
 example : (exState 3).1.map (fun p => (p.1, cview p.2.buf)) = [("a", [97, 98]), ("b", [97, 120, 98])] := by decide
 /-- the pairing theorem applies to it: nothing is outstanding at the end -/
 example : liveAfter (exState 5).2.log [] = some [] := by
-  obtain ⟨L, h1, h2⟩ := each_buffer_released_once_same_size_partial exRun
+  obtain ⟨L, h1, h2⟩ := each_buffer_released_once_same_size exRun
   have : (exState 5).1 = [] := by decide
   rw [this] at h2
   simp only [owned, List.map_nil, List.perm_nil] at h2
